@@ -126,3 +126,94 @@ def m_values(m):
 
 def tokens(kin, m):
     return ' '.join(map(f2hex, consts() + m_values(m) + pt_values(kin)))
+
+
+def entry_correspondence(rep, rng, npts, tol=1e-10, sets=None):
+    """every translated coefficient / term and the XS assembly, all formula sets, versus the real code.
+    Returns the list of disagreements (kind, set, entry, code value, model value, kinematics, model values)."""
+    import gepard as g
+    from common import hex2f, relerr
+    I = info()
+    rep.coverage['translated_definitions'] = I['ndefs']
+    rep.coverage['translator_rejected'] = I['rejected']
+    try:
+        rep.coverage['generated_symmetry_lemmas'] = open(common.LEAN + '/Gen/BmkSymR.lean').read().count('theorem ')
+    except OSError:
+        pass
+    lines, meta = [], []
+    for i in range(npts):
+        fset = rng.choice(sets or FORMULA_SETS)
+        m = random_m(rng)
+        th = theory(fset, m)
+        kw = random_kinematics(rng)
+        pt, kin = prepared(kw, varphi=rng.uniform(0, 2 * math.pi))
+        tok = tokens(kin, m)
+        for e in I['entries'][fset]:
+            try:
+                v = float(getattr(th, e)(kin))
+            except Exception as ex:
+                v = 'EXC:' + type(ex).__name__
+            lines.append('c06.eval %s %s %s' % (fset, e, tok))
+            meta.append(('entry', fset, e, v, kw, m))
+        for target in (['U', 'L', 'T'] if fset in LP_SETS else ['U', 'T']):
+            kk = dict(kw)
+            if target != 'U':
+                kk['in2polarizationvector'] = target
+                kk['in2polarization'] = rng.choice([-1, 1])
+            if target == 'T':
+                kk['varFTn'] = rng.choice([-1, 1])
+            weighted = rng.random() < 0.3
+            p2 = g.DataPoint(**kk)
+            try:
+                v = float(th.XS(p2, weighted=weighted))
+            except ValueError:
+                v = 'ValueError'
+            except Exception as ex:
+                v = 'EXC:' + type(ex).__name__
+            k2 = p2.copy()
+            if target == 'T':
+                k2.varphi = (1 - kk['varFTn']) * math.pi / 4.
+            k2.prepare()
+            lines.append('c06.xs %s %d %d %s %s' % (fset, 'ULT'.index(target), weighted, f2hex(kk.get('in2polarization', 0)), tokens(k2, m)))
+            meta.append(('xs', fset, target, v, kk, m))
+        # kinematics.prepare itself: raw point -> prepared fields
+        raw = g.DataPoint(**kw)
+        rawk = raw.copy()
+        rawk.varphi = kin.varphi
+        if not hasattr(rawk, 's'):
+            from gepard.constants import Mp, Mp2
+            rawk.s = (2 * Mp * rawk.in1energy + Mp2) if rawk.exptype == 'fixed target' else (
+                2 * rawk.in1energy * (rawk.in2energy + math.sqrt(rawk.in2energy ** 2 - Mp2)) + Mp2)
+        lines.append('c06.prepare ' + tokens(rawk, m))
+        meta.append(('prepare', fset, 'prepare', pt_values(kin), kw, m))
+    out = common.run_driver(lines)
+    worst = 0.0
+    broken = []
+    for line, (kind, fset, e, v, kw, m), o in zip(lines, meta, out):
+        rep.case(kind, (fset, e, line[-40:]), sample=dict(kind=kind, set=fset, entry=e, value=v if kind != 'prepare' else 'fields') if len(rep.coverage['samples']) < 4 else None)
+        if kind == 'prepare':
+            if o == 'bad-op':
+                broken.append((kind, fset, e, 'fields', o, kw, m))
+                continue
+            mv = [hex2f(x) for x in o.split()]
+            names = I['pt_fields']
+            for nme, a, b in zip(names, v, mv):
+                if nme in ('r', 'chi', 'chi0'):
+                    continue
+                r = relerr(a, b, 1e-300)
+                worst = max(worst, r)
+                if r > tol:
+                    broken.append((kind, fset, 'prepare.' + nme, a, b, kw, m))
+                    break
+            continue
+        if isinstance(v, str) or o in ('bad-op', 'no-such-entry', 'ValueError'):
+            if v == o:
+                continue
+            broken.append((kind, fset, e, v, o, kw, m))
+            continue
+        r = relerr(v, hex2f(o))
+        worst = max(worst, r)
+        if r > tol:
+            broken.append((kind, fset, e, v, hex2f(o), kw, m))
+    rep.coverage['max_model_vs_code_relerr'] = worst
+    return broken
